@@ -3,6 +3,7 @@ package main
 import (
 	"fmt"
 	"go/token"
+	"go/types"
 	"sort"
 	"strings"
 
@@ -122,6 +123,26 @@ func c01r1(p *Prog, r *Reporter) {
 				if apath(st.Val) != row {
 					why = "the index is set to " + apath(st.Val) + ", not to the vacated row " + row
 					continue
+				}
+				// the row is compared by access path; when it is re-read through the entity index, nothing may write the
+				// index between the removal and the fix-up
+				if readsEntityIndex(call.Common().Args[1]) {
+					clobber := ""
+					for _, b2 := range fn.Blocks {
+						for _, i2 := range b2.Instrs {
+							s2, ok := i2.(*ssa.Store)
+							if !ok || s2 == st || !writesEntityIndex(s2) {
+								continue
+							}
+							if instrBefore(call, s2) && instrBefore(s2, st) {
+								clobber = p.Pos(s2.Pos())
+							}
+						}
+					}
+					if clobber != "" {
+						why = "the entity index is written at " + clobber + ", between the removal and the fix-up that re-reads the vacated row through it: the fix-up may use the new row"
+						continue
+					}
 				}
 				okc = true
 			}
@@ -597,4 +618,30 @@ func c01r9(p *Prog, r *Reporter) {
 				"has the reverse edge with the same id in the same block (adding and removing a component are inverse walks)")
 		}
 	}
+}
+
+// readsEntityIndex: v is a load of a field of an entityIndex reached through a pointer (an element of World.entities).
+func readsEntityIndex(v ssa.Value) bool {
+	u, ok := v.(*ssa.UnOp)
+	if !ok || u.Op != token.MUL {
+		return false
+	}
+	fa, ok := u.X.(*ssa.FieldAddr)
+	return ok && typeName(fa.X.Type()) == "entityIndex"
+}
+
+// writesEntityIndex: the store writes an element of World.entities (a whole entry or one of its fields).
+func writesEntityIndex(st *ssa.Store) bool {
+	addr := st.Addr
+	if fa, ok := addr.(*ssa.FieldAddr); ok && typeName(fa.X.Type()) == "entityIndex" {
+		return true
+	}
+	if ia, ok := addr.(*ssa.IndexAddr); ok {
+		if _, f, _, ok := loadedField(ia.X); ok && f == "entities" {
+			if sl, ok := ia.X.Type().Underlying().(*types.Slice); ok && typeName(sl.Elem()) == "entityIndex" {
+				return true
+			}
+		}
+	}
+	return false
 }
